@@ -205,6 +205,11 @@ fn scenario(v: &[Trans], e: Event, raise: Event, variant: u64) -> Scenario {
             delivered.push(su);
             vec![vec![ext(su).unwrap()]]
         }
+        // BlockingBegin is a global event: every machine receives it whichever machine (or none) it names
+        Event::BlockingBegin => {
+            let id = [0usize, 1, 7][(variant % 3) as usize];
+            vec![vec![TriggerEvent::BlockingBegin { machine: maybenot::MachineId::from_raw(id) }]]
+        }
         _ => vec![vec![ext(raise).unwrap()]],
     };
     let mut s0 = State::new(t0);
